@@ -169,12 +169,50 @@ class _Send(_A):
     def fw(self):
         return [c for c in self._p.ghost.get("forwarded", []) if c.what == "send"]
 
+    # ---- native small-scope search: the real adapter in front of a recording proxy, every request kind
+    REQUESTS = [("init", ("S-0",), {"time_resolution": 1.0, "p": 3}), ("create", (2, "M"), {"x": 1}), ("setup_done", (), {}),
+                ("step", (3, {"e": {"a": {"s": 1}}}, 7), {}), ("step", (3, {}), {}), ("get_data", ({"e": ["a"]},), {}),
+                ("stop", (), {}), ("my_extra_method", (1, 2), {"k": "v"}), ("get_related_entities", (), {})]
+
+    def native_search(self, budget):
+        for i in range(len(self.REQUESTS)):
+            yield {"request_index": i}
+
+    def native_call(self, m):
+        if "request_index" not in m:
+            return True, "symbolic counter-models are not replayed (the native search is)"
+        import asyncio
+        import importlib
+        cls = getattr(importlib.import_module("mosaik.adapters"), self.cls.rsplit(".", 1)[1])
+        req = self.REQUESTS[m["request_index"]]
+        seen = []
+
+        class P:
+            meta = {"api_version": "2.0", "models": {}}
+
+            async def send(self, request):
+                seen.append(request)
+                return ("reply to", request[0])
+        loop = asyncio.new_event_loop()
+        try:
+            r = loop.run_until_complete(cls(P()).send(req))
+        finally:
+            loop.close()
+        exp_seen, exp_reply = self.native_expected(req)
+        ok = [tuple(x) if isinstance(x, list) else x for x in seen] == exp_seen and r == exp_reply
+        return ok, f"{cls.__name__}.send({req!r}) forwarded {seen!r} and returned {r!r}; expected {exp_seen!r} / {exp_reply!r}"
+
 
 class V3Send(_Send):
     """V3ToV2Adapter.send: a ("step", args, kwargs) request is forwarded as ("step", args[0:2], kwargs) -- no
     max_advance before v3; EVERY other request is forwarded unchanged; the reply is passed back"""
     target = V3 + ".send"
     cls = V3
+
+    def native_expected(self, req):
+        if req[0] == "step":
+            return [("step", tuple(req[1][:2]), req[2])], ("reply to", "step")
+        return [req], ("reply to", req[0])
 
     def split_post(self, A, result):
         fw = self.fw()
@@ -207,6 +245,11 @@ class V2Send(_Send):
     every other request is forwarded unchanged and its reply passed back"""
     target = V2 + ".send"
     cls = V2
+
+    def native_expected(self, req):
+        if req[0] == "setup_done":
+            return [], None
+        return [req], ("reply to", req[0])
 
     def split_post(self, A, result):
         fw = self.fw()
